@@ -110,7 +110,8 @@ def case_constraint(**p):
   if cons:
     case.solve('feasible', core.any_of(specs.violated(cons) + [z3.Not(d) for d in den_ok]),
                witness=dict(w=w), timeout=p.get('timeout', 120),
-               sig=lambda m: _sig(p, cons, m, 'feasible'), replay=replay)
+               sig=lambda m: _sig(p, cons, m, 'feasible'), replay=replay,
+               robust=core.robust_cons(cons, [w], extra_bad=[z3.Not(d) for d in den_ok]))
     # sabotage twin: the same predicate on the unprojected kernel must be violable
     cons_in = _strict_cons(w, sizes, units, p['mono'], p['edge'], p['trap'], p['omin'], p['omax'])
     case.solve('twin:input-can-violate', core.any_of(specs.violated(cons_in)), expect='sat', kind='twin', timeout=30)
@@ -121,7 +122,7 @@ def case_constraint(**p):
   else:
     out_c = core.concretise_dens(out, specs.holds(allc))
     case.solve('unchanged-if-feasible', core.neq_arrays(out_c, w), assumptions=specs.holds(allc),
-               witness=dict(w=w), timeout=p.get('timeout', 120),
+               witness=dict(w=w), timeout=p.get('timeout', 120), robust=core.robust_neq(out_c, w, [w]),
                sig=lambda m: dict(query='unchanged', has_edgeworth=bool(p['edge']), has_trapezoid=bool(p['trap'])),
                replay=replay)
     case.solve('twin:feasible-set-nonempty', z3.BoolVal(True), assumptions=specs.holds(allc), expect='sat',
